@@ -593,7 +593,7 @@ RunOut run_plan(const std::vector<std::string>& lines, uint64_t run_index)
    out.seq_events = thrsim::sequential_events();
    // ... and either reverse task order, or every operation twice in a row
    g_prog.set(run_index, 3, "sequential-alt");
-   g_inject_stale_thread_state = true; g_inject_counter = run_index;
+   g_inject_stale_thread_state = true; g_inject_counter = 0; // (a function of the plan only, not of the run index: replays must see the same values)
    struct StaleOff { ~StaleOff() { g_inject_stale_thread_state = false; errno = 0; std::feclearexcept(FE_ALL_EXCEPT); } } stale_off;
    if (plan.seq_variant == 0) {
       // reverse task order, and inside each task every maximal run of consecutive read-only operations
